@@ -11,13 +11,19 @@ package main
 //@ event FrontendSplit = call strings.Split
 
 //@ event EnvironRead = ret os.Environ
+//@ event FrontendSandboxInit = call cmd/aws-lambda-rie.(Sandbox).Init
+//@ event FrontendSandboxInitLackingAVariable = call cmd/aws-lambda-rie.(Sandbox).Init when !(forall j int :: 0 <= j && j < len(lastret(EnvironRead)) && contains(lastret(EnvironRead)[j], "=") ==> has(a1.CustomerEnvironmentVariables, beforeFirst(lastret(EnvironRead)[j], "=")))
 // C16 / C07: an entry of the process environment without '=' (execve allows it, os.Environ returns it) must not crash the
 // initialisation that every first invocation runs: panic-freedom is proved, under the wiring fact that main passes a sandbox
 //@ func InitHandler
 //@   safety on
 //@   requires sandbox != nil && (typeis(sandbox, *rapidcore.EmulatorAPI) ==> sandbox.(*rapidcore.EmulatorAPI) != nil)
+// C16 ("every variable not shadowed arrives unchanged", empty values included): every entry of the process environment that has
+// an '=' is in the customer map handed to the sandbox, under the name before the first '=' (an empty value is a value)
+//@   ensures [C16: every-variable-of-the-process-environment-is-handed-on] delta(FrontendSandboxInit) == 1 && delta(FrontendSandboxInitLackingAVariable) == 0
 //@   ensures [split-at-first-equals-only] delta(SplitOtherwise) == 0 && delta(FrontendSplit) == 0
 //@   loop range os.Environ(): invariant delta(SplitOtherwise) == 0 && delta(FrontendSplit) == 0
+//@   loop range os.Environ(): invariant [C16: every-entry-with-an-equals-sign-is-forwarded-so-far] additionalFunctionEnvironmentVariables != nil && (forall j int :: 0 <= j && j <= rangeindex && contains(lastret(EnvironRead)[j], "=") ==> has(additionalFunctionEnvironmentVariables, beforeFirst(lastret(EnvironRead)[j], "=")))
 //@   loop range os.Environ(): invariant [bounds] delta(EnvironRead) == 1 && 0 <= rangeindex + 1 && rangeindex + 1 <= len(lastret(EnvironRead))
 
 // C01: the front end hands the request body to the sandbox unchanged and answers with what the sandbox wrote
